@@ -216,9 +216,13 @@ def evaluate_z3_re_range(
     if expr.decl().name() != "re.range":
         return Nothing
 
-    return Some(
-        construct_result(lambda args: f"[{args[0]}-{args[1]}]", children_results)
-    )
+    def constructor(args):
+        if len(args[0]) != 1 or len(args[1]) != 1 or args[0] > args[1]:
+            # The empty language (as in Z3): a pattern that never matches.
+            return "(?!)"
+        return f"[{re.escape(args[0])}-{re.escape(args[1])}]"
+
+    return Some(construct_result(constructor, children_results))
 
 
 def evaluate_z3_re_loop(
@@ -227,9 +231,16 @@ def evaluate_z3_re_loop(
     if expr.decl().kind() != z3.Z3_OP_RE_LOOP:
         return Nothing
 
+    params = expr.params()
+    if len(params) != 2:
+        return Nothing
+
+    if params[0] > params[1]:
+        return Some(((), "(?!)"))  # The empty language.
+
     return Some(
         construct_result(
-            lambda args: f"{args[0]}{{{expr.params()[0]},{expr.params()[1]}}}",
+            lambda args: f"(?:{args[0]}){{{params[0]},{params[1]}}}",
             children_results,
         )
     )
@@ -244,11 +255,7 @@ def evaluate_z3_seq_to_re(
     def constructor(args):
         assert len(args) == 1
 
-        child_string = args[0]
-        for symbol, ctrl_character in zip("tnrvf", "\t\n\r\v\f"):
-            child_string = child_string.replace("\\" + symbol, ctrl_character)
-
-        return re.escape(child_string)
+        return re.escape(args[0])
 
     return Some(construct_result(constructor, children_results))
 
@@ -270,7 +277,7 @@ def evaluate_z3_seq_in_re(
 
     return Some(
         construct_result(
-            lambda args: re.match(f"^{args[1]}$", args[0]) is not None,
+            lambda args: re.fullmatch(args[1], args[0], re.DOTALL) is not None,
             children_results,
         )
     )
@@ -282,7 +289,7 @@ def evaluate_z3_re_star(
     if expr.decl().kind() != z3.Z3_OP_RE_STAR:
         return Nothing
 
-    return Some(construct_result(lambda args: f"({args[0]})*", children_results))
+    return Some(construct_result(lambda args: f"(?:{args[0]})*", children_results))
 
 
 def evaluate_z3_re_plus(
@@ -291,7 +298,7 @@ def evaluate_z3_re_plus(
     if expr.decl().kind() != z3.Z3_OP_RE_PLUS:
         return Nothing
 
-    return Some(construct_result(lambda args: f"({args[0]})+", children_results))
+    return Some(construct_result(lambda args: f"(?:{args[0]})+", children_results))
 
 
 def evaluate_z3_re_option(
@@ -300,7 +307,7 @@ def evaluate_z3_re_option(
     if expr.decl().kind() != z3.Z3_OP_RE_OPTION:
         return Nothing
 
-    return Some(construct_result(lambda args: f"({args[0]})?", children_results))
+    return Some(construct_result(lambda args: f"(?:{args[0]})?", children_results))
 
 
 def evaluate_z3_re_union(
@@ -310,50 +317,25 @@ def evaluate_z3_re_union(
         return Nothing
 
     return Some(
-        construct_result(lambda args: f"(({args[0]})|({args[1]}))", children_results)
+        construct_result(
+            lambda args: "(?:" + "|".join(f"(?:{arg})" for arg in args) + ")",
+            children_results,
+        )
     )
 
 
 def evaluate_z3_re_comp(expr: z3.ExprRef, _) -> Maybe[Z3EvalResult]:
-    if expr.decl().name() != "re.comp":
-        return Nothing
-
-    # The argument must be a union of strings or a range.
-    child = expr.children()[0]
-    if not (
-        child.decl().kind() == z3.Z3_OP_RE_UNION
-        and all(
-            grandchild.decl().kind() == z3.Z3_OP_SEQ_TO_RE
-            for grandchild in child.children()
-        )
-        or child.decl().name() == "re.range"
-    ):
-        return Nothing
-
-    maybe_children_result: Maybe[Tuple[Z3EvalResult]] = result_to_maybe(
-        reduce(
-            lambda acc, maybe_child_result: acc.map(
-                lambda some_acc: maybe_child_result.map(
-                    lambda child_result: some_acc + (child_result,)
-                )
-            ),
-            map(evaluate_z3_expression, child.children()),
-            Success(()),
-        )
-    )
-
-    return maybe_children_result.map(
-        lambda children_result: construct_result(
-            lambda args: "[^" + "".join(args) + "]", children_result
-        )
-    )
+    # The complement of a regular language (all *strings* not in the language) cannot
+    # be expressed compositionally by a Python regular expression; in particular, it
+    # is not a negated character class. We leave such expressions to Z3.
+    return Nothing
 
 
 def evaluate_z3_re_full_set(expr: z3.ExprRef, _) -> Maybe[Z3EvalResult]:
     if expr.decl().kind() != z3.Z3_OP_RE_FULL_SET:
         return Nothing
 
-    return Some(((), ".*?"))
+    return Some(((), "(?s:.*)"))
 
 
 # Boolean Combinations
